@@ -24,6 +24,10 @@ func init() {
 			"two fields are treated as the same field only when name, alias, absence of selections, arguments and directives agree, and a selection is removed only on that verdict after its defer information was merged. " +
 			"It does not decide exec(norm(q)) == exec(q), validity preservation or idempotence (value level).",
 		Mutants: []Mutant{
+			{Name: "an extracted variable is reused when named type and outer nullability agree (seeded change C03-1)", File: "v2/pkg/astnormalization/variables_extraction.go", Rule: "C03-R11", Key: "variablesExtractionVisitor.extractedVariablesContainsKey/reuse-needs-deep-type-equality",
+				Old: "v.definition.TypesAreEqualDeep(typeRef, v.extractedVariableTypeRefs[i])", New: "v.definition.TypeIsNonNull(typeRef) == v.definition.TypeIsNonNull(v.extractedVariableTypeRefs[i]) && bytes.Equal(v.definition.ResolveTypeNameBytes(typeRef), v.definition.ResolveTypeNameBytes(v.extractedVariableTypeRefs[i]))"},
+			{Name: "deep type equality compares outer nullability, list depth and name (seeded change C03-22)", File: "v2/pkg/ast/ast_type.go", Rule: "C03-R12", Key: "Document.TypesAreEqualDeep/level-by-level",
+				Old: "func (d *Document) TypesAreEqualDeep(left int, right int) bool {\n\tfor {\n", New: "func (d *Document) TypesAreEqualDeep(left int, right int) bool {\n\tif left != -1 && right != -1 {\n\t\treturn d.TypeIsNonNull(left) == d.TypeIsNonNull(right) && d.TypeNumberOfListWraps(left) == d.TypeNumberOfListWraps(right) && bytes.Equal(d.ResolveTypeNameBytes(left), d.ResolveTypeNameBytes(right))\n\t}\n\tfor {\n"},
 			{Name: "walker ranges over the directives of a field with a captured slice header (reverts part of the F55 fix)", File: "v2/pkg/astvisitor/visitor.go", Rule: "C03-R10", Key: "Walker/walkField/re-reads:Fields.Directives.Refs",
 				Old: "\t\tfor idx := 0; idx < len(w.document.Fields[ref].Directives.Refs); {\n\t\t\ti := w.document.Fields[ref].Directives.Refs[idx]\n\t\t\tw.walkDirective(i, skipFor)\n\t\t\tif w.stop {\n\t\t\t\treturn\n\t\t\t}\n\t\t\tif idx < len(w.document.Fields[ref].Directives.Refs) && w.document.Fields[ref].Directives.Refs[idx] == i {\n\t\t\t\tidx++\n\t\t\t}\n\t\t}\n",
 				New: "\t\tfor _, i := range w.document.Fields[ref].Directives.Refs {\n\t\t\tw.walkDirective(i, skipFor)\n\t\t\tif w.stop {\n\t\t\t\treturn\n\t\t\t}\n\t\t}\n"},
@@ -82,6 +86,7 @@ func runC03(r *fw.Run) {
 
 	r.Rule("C03-R10", "for every node kind whose directive list a visitor may shrink (ast.Document.RemoveDirectiveFromNode), the Walker's loop over that list re-reads it on every step instead of ranging over a captured slice header")
 	walkerRereadsShrinkableLists(r, "C03-R10")
+	c03VariableReuseNeedsDeepTypeEquality(r)
 
 	r.Rule("C03-R9", "normalization runs before validation: in astnormalization and package ast the ref of an ast.Value is handed to an accessor of kind K (doc.<K>Value…(v.Ref), doc.<K>Values[v.Ref]) only where v.Kind is known to be K (equality or switch clause on the same value, a boolean local defined from it, or every caller of an unexported helper); VariableDefinition.VariableValue is a variable by construction")
 	nKR := kindRefAgreement(r, "C03-R9", []string{"astnorm", "ast"}, nil)
@@ -503,4 +508,212 @@ func c03ElementIndexCounters(r *fw.Run) {
 		})
 	}
 	r.Expect("C03-R6", "exits of ArrayEach callbacks with a captured element counter", n, 2)
+}
+
+// c03VariableReuseNeedsDeepTypeEquality (R11, R12): variable extraction re-uses an already extracted variable for a second
+// literal with the same JSON. The variable's declared type is that of the first position; [Int] and [Int!], Int and [Int],
+// [[T]] and [T] accept the same literal but are different variable types, and the re-used variable is then passed to a
+// position it does not fit (validation of the normalized operation fails or the subgraph receives a wrongly typed
+// variable). R11: the function that reads the recorded type of an extracted variable answers "re-usable" only under a call
+// of the deep type equality on that recorded type. R12: the deep equality (followed through plain delegation) compares
+// level by level: inside a loop, or by recursion, both refs advance through OfType and the kinds of the level are compared
+// — a fixed set of summary questions (outer nullability, list depth, base name) cannot tell [Int!] from [Int].
+func c03VariableReuseNeedsDeepTypeEquality(r *fw.Run) {
+	p := r.Prog
+	r.Rule("C03-R11", "variable extraction answers that an extracted variable can be re-used only under a true outcome of the deep type equality between the position's type and the type recorded for that variable")
+	r.Rule("C03-R12", "the deep type equality used for that decision compares level by level: in a loop or by recursion both type refs advance through OfType and the TypeKind of each level is read")
+	nReuse := 0
+	deep := map[*fw.FuncInfo]bool{}
+	for _, fi := range p.Funcs("astnorm") {
+		info := fi.Info()
+		reads := false
+		fw.WalkAll(fi.Decl.Body, func(nd ast.Node) bool {
+			if ix, ok := nd.(*ast.IndexExpr); ok && fw.IsFieldSel(info, ix.X, "astnorm", "variablesExtractionVisitor", "extractedVariableTypeRefs") {
+				reads = true
+			}
+			return true
+		})
+		sig := fi.Obj.Type().(*types.Signature)
+		if !reads || sig.Results().Len() != 1 || !types.Identical(sig.Results().At(0).Type(), types.Typ[types.Bool]) {
+			continue
+		}
+		nReuse++
+		bad := ""
+		nTrue := 0
+		isRecordedType := func(e ast.Expr) bool {
+			ix, isIx := ast.Unparen(e).(*ast.IndexExpr)
+			return isIx && fw.IsFieldSel(info, ix.X, "astnorm", "variablesExtractionVisitor", "extractedVariableTypeRefs")
+		}
+		in := fw.NewInterp(fi)
+		in.H = fw.Hooks{
+			Cond: func(e ast.Expr, branch bool, st *fw.State) {
+				op, leaves := fw.NNF(info, e, branch)
+				if op != "atom" && op != "and" {
+					return
+				}
+				for _, a := range leaves {
+					if a.Kind != "True" {
+						continue
+					}
+					c, isCall := ast.Unparen(a.X).(*ast.CallExpr)
+					if !isCall || len(c.Args) != 2 {
+						continue
+					}
+					callee := p.FuncOf(fw.Callee(info, c))
+					if callee == nil || callee.Pkg.Name != "ast" {
+						continue
+					}
+					recorded := false
+					for _, arg := range c.Args {
+						if isRecordedType(arg) {
+							recorded = true
+						}
+						// t := v.extractedVariableTypeRefs[i]; … equal(typeRef, t)
+						if id, isID := ast.Unparen(arg).(*ast.Ident); isID {
+							fw.WalkAll(fi.Decl.Body, func(nd ast.Node) bool {
+								if as, ok := nd.(*ast.AssignStmt); ok && len(as.Lhs) == 1 && len(as.Rhs) == 1 {
+									if l, isL := as.Lhs[0].(*ast.Ident); isL && info.ObjectOf(l) == info.ObjectOf(id) && isRecordedType(as.Rhs[0]) {
+										recorded = true
+									}
+								}
+								return true
+							})
+						}
+					}
+					if recorded {
+						st.Set("deep-equal")
+						deep[callee] = true
+					}
+				}
+			},
+			Exit: func(ret *ast.ReturnStmt, lit *ast.FuncLit, st *fw.State) {
+				if lit != nil || ret == nil || !in.Final() || len(ret.Results) != 1 {
+					return
+				}
+				if v, isConst := fw.ConstVal(info, ret.Results[0]); isConst && v == "false" {
+					return
+				}
+				nTrue++
+				if !st.Must("deep-equal") {
+					bad = p.Pos(ret.Pos())
+				}
+			},
+		}
+		in.Run(nil)
+		r.Check(bad == "" && nTrue > 0, "C03-R11", fi.Name()+"/reuse-needs-deep-type-equality", p.Pos(fi.Decl.Pos()), fi.Name()+" answers true only under the deep type equality with the recorded type of the extracted variable",
+			"an extracted variable is re-used for a position whose type was not compared deeply with the variable's declared type ("+bad+"): the same literal at [Int] and [Int!] (or Int and [Int]) shares one variable, and the normalized operation passes a variable to a position it does not fit")
+	}
+	r.Expect("C03-R11", "functions deciding the re-use of an extracted variable", nReuse, 1)
+
+	nDeep := 0
+	if len(deep) == 0 {
+		// R11 found no guarded re-use (and has reported that); the equality itself is still decided
+		if fi := p.Func("ast", "Document.TypesAreEqualDeep"); fi != nil {
+			deep[fi] = true
+		}
+	}
+	for fi := range deep {
+		// follow plain delegation: return d.other(left, right, …)
+		target := fi
+		for hop := 0; hop < 3; hop++ {
+			if len(target.Decl.Body.List) != 1 {
+				break
+			}
+			ret, isRet := target.Decl.Body.List[0].(*ast.ReturnStmt)
+			if !isRet || len(ret.Results) != 1 {
+				break
+			}
+			c, isCall := ast.Unparen(ret.Results[0]).(*ast.CallExpr)
+			if !isCall {
+				break
+			}
+			next := p.FuncOf(fw.Callee(target.Info(), c))
+			if next == nil || next == target {
+				break
+			}
+			target = next
+		}
+		nDeep++
+		info := target.Info()
+		sig := target.Obj.Type().(*types.Signature)
+		var refs []*types.Var
+		for i := 0; i < sig.Params().Len(); i++ {
+			if types.Identical(sig.Params().At(i).Type(), types.Typ[types.Int]) {
+				refs = append(refs, sig.Params().At(i))
+			}
+		}
+		advanced := map[*types.Var]bool{}
+		kindRead := false
+		mentionsOfType := func(e ast.Expr) bool {
+			found := false
+			ast.Inspect(e, func(m ast.Node) bool {
+				if sel, ok := m.(*ast.SelectorExpr); ok && fw.IsFieldSel(info, sel, "ast", "Type", "OfType") {
+					found = true
+				}
+				return true
+			})
+			return found
+		}
+		var visit func(n ast.Node, inLoop bool)
+		visit = func(n ast.Node, inLoop bool) {
+			ast.Inspect(n, func(m ast.Node) bool {
+				switch x := m.(type) {
+				case *ast.ForStmt:
+					if ast.Node(x) != n {
+						visit(x, true)
+						return false
+					}
+				case *ast.RangeStmt:
+					if ast.Node(x) != n {
+						visit(x, true)
+						return false
+					}
+				case *ast.AssignStmt:
+					if inLoop && len(x.Lhs) == len(x.Rhs) {
+						for i, l := range x.Lhs {
+							if id, ok := l.(*ast.Ident); ok && mentionsOfType(x.Rhs[i]) {
+								for _, pv := range refs {
+									if info.ObjectOf(id) == pv {
+										advanced[pv] = true
+									}
+								}
+							}
+						}
+					}
+				case *ast.SelectorExpr:
+					if inLoop && fw.IsFieldSel(info, x, "ast", "Type", "TypeKind") {
+						kindRead = true
+					}
+				case *ast.CallExpr:
+					if fw.Callee(info, x) == target.Obj {
+						// recursion: the refs are advanced in the arguments
+						k := 0
+						for _, arg := range x.Args {
+							if mentionsOfType(arg) && k < len(refs) {
+								advanced[refs[k]] = true
+								k++
+							}
+						}
+						ast.Inspect(target.Decl.Body, func(q ast.Node) bool {
+							if sel, ok := q.(*ast.SelectorExpr); ok && fw.IsFieldSel(info, sel, "ast", "Type", "TypeKind") {
+								kindRead = true
+							}
+							return true
+						})
+					}
+				}
+				return true
+			})
+		}
+		visit(target.Decl.Body, false)
+		ok := len(refs) >= 2 && kindRead
+		for _, pv := range refs[:min(2, len(refs))] {
+			if !advanced[pv] {
+				ok = false
+			}
+		}
+		r.Check(ok, "C03-R12", fi.Name()+"/level-by-level", p.Pos(target.Decl.Pos()), target.Name()+" walks both types level by level (loop or recursion advancing both refs through OfType, TypeKind read per level)",
+			target.Name()+" does not compare the two types level by level: inner nullability or the order of list and non-null wrappers is not compared, so [Int!] and [Int] (or [[T]!] and [[T!]]) count as equal and one extracted variable is shared between positions of different types")
+	}
+	r.Expect("C03-R12", "deep type equalities used for variable re-use", nDeep, 1)
 }
